@@ -1,33 +1,283 @@
 package engine
 
-import "regexp"
+import (
+	"errors"
+	"fmt"
+	"go/types"
+	"regexp"
+	"strconv"
+)
 
 // Models of library calls on strings with symbolic bytes (C02/C16/C17).
-// Filled in by symbytes_models.go; the defaults abort as inconclusive.
+// Exact models fork on byte classes through the byte-domain mechanism; the
+// over-approximating ones mark the path as approximate (its outputs are then
+// not compared with the native run, only its assertions are).
 
 type symRegexp struct{}
 
+func (s *State) byteIs(b Value, c byte) bool {
+	switch x := b.(type) {
+	case uint64:
+		return byte(x) == c
+	case *Term:
+		return s.decide(s.W.Pool.Eq(x, s.W.Pool.BVConst(uint64(c), 8)), "byte")
+	}
+	return false
+}
+
+func (s *State) byteIn(b Value, lo, hi byte) bool {
+	switch x := b.(type) {
+	case uint64:
+		return byte(x) >= lo && byte(x) <= hi
+	case *Term:
+		p := s.W.Pool
+		return s.decide(p.And(p.App("bvuge", SortBool, x, p.BVConst(uint64(lo), 8)), p.App("bvule", SortBool, x, p.BVConst(uint64(hi), 8))), "byte")
+	}
+	return false
+}
+
+// regexp.Compile on a pattern with symbolic bytes: either outcome, approximate.
 func (s *State) symRegexpCompile(pat Value) Value {
-	s.abort("regexp.Compile on a pattern with symbolic bytes is not modelled")
+	key := fmt.Sprintf("in:approx:recompile#%d", s.approxCount())
+	if alt, ok := s.choiceFor(key); ok {
+		s.bumpApprox()
+		s.Approx = true
+		if alt == 0 {
+			return Tuple{HostV{V: symRegexp{}}, Iface{}}
+		}
+		return Tuple{HostV{V: (*regexp.Regexp)(nil)}, s.hostError(errors.New("error parsing regexp: (symbolic pattern)"))}
+	}
+	s.fork(key, 2, func(n *State, i int) {})
 	return nil
 }
 
+func (s *State) approxCount() int {
+	v, _ := s.docRes[-2000000].(int)
+	return v
+}
+func (s *State) bumpApprox() { s.docRes[-2000000] = s.approxCount() + 1 }
+
+// ReplaceAllStringFunc for the pattern `\\(.)` on a string with symbolic
+// bytes: a backslash followed by a byte other than newline is a match; the
+// callback is invoked on the two-byte block as the real method would.
 func (s *State) symReplaceAll(re *regexp.Regexp, ss *SymStr, fv *FuncV) Value {
-	s.abort("ReplaceAllStringFunc on a string with symbolic bytes is not modelled")
-	return nil
+	if re.String() != `\\(.)` {
+		s.abort("ReplaceAllStringFunc on symbolic bytes is modelled only for the pattern \\\\(.), got %s", re.String())
+	}
+	// first decide the match structure (forks happen here, outside nested calls)
+	type blk struct{ at int }
+	var blocks []blk
+	i := 0
+	for i < len(ss.B) {
+		if i+1 < len(ss.B) && s.byteIs(ss.B[i], '\\') && !s.byteIs(ss.B[i+1], '\n') {
+			if c, ok := ss.B[i+1].(uint64); ok && c >= 0x80 {
+				s.abort("unescape of a non-ASCII character next to symbolic bytes is not modelled")
+			}
+			blocks = append(blocks, blk{i})
+			i += 2
+			continue
+		}
+		i++
+	}
+	out := &SymStr{}
+	last := 0
+	for _, b := range blocks {
+		out.B = append(out.B, ss.B[last:b.at]...)
+		r := s.callNested(fv, []Value{s.normStr(&SymStr{B: ss.B[b.at : b.at+2]})})
+		rs := toSymStr(r)
+		if rs == nil {
+			s.abort("ReplaceAllStringFunc callback returned %T", r)
+		}
+		out.B = append(out.B, rs.B...)
+		last = b.at + 2
+	}
+	out.B = append(out.B, ss.B[last:]...)
+	return s.normStr(out)
 }
 
+// FindStringSubmatch for `\\(.)` on a two-byte block.
+func (s *State) symFindSubmatch(re *regexp.Regexp, ss *SymStr) Value {
+	if re.String() != `\\(.)` || len(ss.B) != 2 {
+		s.abort("FindStringSubmatch on symbolic bytes is modelled only for \\\\(.) on a matched block")
+	}
+	if !s.byteIs(ss.B[0], '\\') || s.byteIs(ss.B[1], '\n') {
+		return Slice{}
+	}
+	arr := &Array{E: []Value{s.normStr(ss), s.normStr(&SymStr{B: ss.B[1:2]})}}
+	id := s.heap.alloc(arr, types.Typ[types.String], "")
+	return Slice{Obj: id, Len: 2, Cap: 2}
+}
+
+// Atoi on symbolic digits: exact when every byte is a digit (optional sign).
 func (s *State) symAtoi(ss *SymStr) Value {
-	s.abort("Atoi on a string with symbolic bytes is not modelled")
-	return nil
+	p := s.W.Pool
+	if len(ss.B) == 0 {
+		_, err := strconv.Atoi("")
+		return Tuple{int64(0), s.hostError(err)}
+	}
+	if len(ss.B) > 18 {
+		// may overflow: explore both outcomes (approximate)
+		key := fmt.Sprintf("in:approx:atoi#%d", s.approxCount())
+		alt, chosen := s.choiceFor(key)
+		if !chosen {
+			s.fork(key, 2, func(n *State, i int) {})
+		}
+		s.bumpApprox()
+		s.Approx = true
+		if alt == 0 {
+			return Tuple{p.Var(fmt.Sprintf("int!atoi%d", s.approxCount()), BV(64)), Iface{}}
+		}
+		_, err := strconv.Atoi("99999999999999999999")
+		return Tuple{int64(0), s.hostError(err)}
+	}
+	neg := false
+	start := 0
+	if s.byteIs(ss.B[0], '-') {
+		neg = true
+		start = 1
+	} else if s.byteIs(ss.B[0], '+') {
+		start = 1
+	}
+	if start == len(ss.B) {
+		_, err := strconv.Atoi("+")
+		return Tuple{int64(0), s.hostError(err)}
+	}
+	var acc *Term = p.BVConst(0, 64)
+	for _, b := range ss.B[start:] {
+		if !s.byteIn(b, '0', '9') {
+			_, err := strconv.Atoi("x")
+			return Tuple{int64(0), s.hostError(err)}
+		}
+		d := p.App("bvsub", BV(64), p.ZeroExtend(s.byteTerm(b), 64), p.BVConst('0', 64))
+		acc = p.App("bvadd", BV(64), p.App("bvmul", BV(64), acc, p.BVConst(10, 64)), d)
+	}
+	if neg {
+		acc = p.App("bvneg", BV(64), acc)
+	}
+	return Tuple{acc, Iface{}}
 }
 
+// ParseFloat on symbolic bytes: exact for pure digit strings, otherwise both
+// outcomes (approximate).
 func (s *State) symParseFloat(ss *SymStr) Value {
-	s.abort("ParseFloat on a string with symbolic bytes is not modelled")
-	return nil
+	p := s.W.Pool
+	key := fmt.Sprintf("in:approx:parsefloat#%d", s.approxCount())
+	alt, chosen := s.choiceFor(key)
+	if !chosen {
+		s.fork(key, 2, func(n *State, i int) {})
+	}
+	s.bumpApprox()
+	s.Approx = true
+	if alt == 0 {
+		f := s.W.floatVar(fmt.Sprintf("float!pf%d", s.approxCount()))
+		s.assume(p.Not(p.App("fp.isNaN", SortBool, f)))
+		s.assume(p.Not(p.App("fp.isInfinite", SortBool, f)))
+		return Tuple{f, Iface{}}
+	}
+	_, err := strconv.ParseFloat("1x", 64)
+	return Tuple{float64(0), s.hostError(err)}
 }
 
+// json.Unmarshal of a quoted JSON string with symbolic ASCII bytes into *string.
 func (s *State) symJSONUnmarshalString(elems []Value, target Ptr) Value {
-	s.abort("json.Unmarshal on symbolic bytes is not modelled")
-	return nil
+	fail := func(msg string) Value {
+		return s.hostError(errors.New(msg))
+	}
+	n := len(elems)
+	if n < 2 || !s.byteIs(elems[0], '"') {
+		return fail("invalid character looking for beginning of value")
+	}
+	out := &SymStr{}
+	i := 1
+	for {
+		if i >= n {
+			return fail("unexpected end of JSON input")
+		}
+		b := elems[i]
+		if s.byteIs(b, '"') {
+			if i != n-1 {
+				return fail("invalid character after top-level value")
+			}
+			break
+		}
+		if s.byteIn(b, 0, 0x1f) {
+			return fail("invalid character in string literal")
+		}
+		if s.byteIs(b, '\\') {
+			if i+1 >= n {
+				return fail("unexpected end of JSON input")
+			}
+			e := elems[i+1]
+			switch {
+			case s.byteIs(e, '"'), s.byteIs(e, '\\'), s.byteIs(e, '/'):
+				out.B = append(out.B, e)
+			case s.byteIs(e, 'b'):
+				out.B = append(out.B, uint64('\b'))
+			case s.byteIs(e, 'f'):
+				out.B = append(out.B, uint64('\f'))
+			case s.byteIs(e, 'n'):
+				out.B = append(out.B, uint64('\n'))
+			case s.byteIs(e, 'r'):
+				out.B = append(out.B, uint64('\r'))
+			case s.byteIs(e, 't'):
+				out.B = append(out.B, uint64('\t'))
+			case s.byteIs(e, 'u'):
+				// \uXXXX with concrete hex digits only
+				if i+5 >= n {
+					return fail("unexpected end of JSON input")
+				}
+				var hex []byte
+				for k := 2; k <= 5; k++ {
+					c, ok := elems[i+k].(uint64)
+					if !ok {
+						s.abort("json string model: symbolic hex digit in \\u escape")
+					}
+					hex = append(hex, byte(c))
+				}
+				var dec string
+				if err := jsonUnmarshalHost(`"\u`+string(hex)+`"`, &dec); err != nil {
+					return fail(err.Error())
+				}
+				// surrogate pairs across two escapes are not modelled
+				if len(hex) == 4 && (hex[0] == 'd' || hex[0] == 'D') && (hex[1] >= '8') {
+					s.abort("json string model: surrogate escape")
+				}
+				for k := 0; k < len(dec); k++ {
+					out.B = append(out.B, uint64(dec[k]))
+				}
+				i += 6
+				continue
+			default:
+				return fail("invalid character in string escape code")
+			}
+			i += 2
+			continue
+		}
+		if c, ok := b.(uint64); ok && c >= 0x80 {
+			// copy a maximal run of concrete non-ASCII bytes through the host decoder
+			j := i
+			var run []byte
+			for j < n {
+				cc, ok := elems[j].(uint64)
+				if !ok || cc < 0x80 {
+					break
+				}
+				run = append(run, byte(cc))
+				j++
+			}
+			var dec string
+			if err := jsonUnmarshalHost(`"`+string(run)+`"`, &dec); err != nil {
+				return fail(err.Error())
+			}
+			for k := 0; k < len(dec); k++ {
+				out.B = append(out.B, uint64(dec[k]))
+			}
+			i = j
+			continue
+		}
+		out.B = append(out.B, b)
+		i++
+	}
+	s.store(target, s.normStr(out))
+	return Iface{}
 }
